@@ -439,6 +439,22 @@ class RealEnc:
                 if d > 0:
                     return q_mul(Q(v), q_pow(base, d))
                 return q_mul(Q(v), q_recip(q_pow(base, -d)))
+        if not is_int and expo.d is None:
+            ez = z3.simplify(expo.n)
+            if z3.is_rational_value(ez):
+                # constant exponent e = k + f, 0 <= f < 1: x^e = x^k * x^f with sqrt / cbrt for f
+                e = Fraction(ez.numerator_as_long(), ez.denominator_as_long())
+                k = e.numerator // e.denominator
+                f = e - k
+                if abs(k) <= 16 and f in (Fraction(0), Fraction(1, 2), Fraction(1, 3), Fraction(2, 3)):
+                    self.need(q_sign(base, '>0'), 'real power of a non-positive base')
+                    ip = Q(_ONE) if k == 0 else (q_pow(base, k) if k > 0 else q_recip(q_pow(base, -k)))
+                    if f == 0:
+                        return ip
+                    if f == Fraction(1, 2):
+                        return q_mul(ip, self.atom('sqrt', base))
+                    c = self.atom('cbrt', base)
+                    return q_mul(ip, c if f == Fraction(1, 3) else q_mul(c, c))
         v = self.fresh('pow')
         if is_int:
             nz = q_sign(base, '!=0')
